@@ -494,8 +494,9 @@ func (g *Gen) genStr(n int) *Term {
 	}
 }
 
-// sliceOf wraps x in a slice expression with literal or small bounds (the
-// bounds never contain calls: the definition fixes no order between them).
+// sliceOf wraps x in a slice expression with literal or small bounds; one
+// bound in five is a small call (operands are evaluated left to right: the
+// lower bound's calls precede the upper bound's).
 func (g *Gen) sliceOf(x *Term, n int) *Term {
 	r := g.R
 	bound := func() *Term {
@@ -505,19 +506,21 @@ func (g *Gen) sliceOf(x *Term, n int) *Term {
 			}
 			return Int(r.Intn(5))
 		}
-		switch r.Intn(4) {
+		switch r.Intn(5) {
 		case 0:
 			return nil
 		case 1:
 			return g.ident(r.Pick([]string{"A", "B", "Z"}))
+		case 2:
+			if !g.NoCalls {
+				return must(Call(g.Sc, "FnI", Int(r.Intn(4))))
+			}
+			return Int(r.Intn(5))
 		default:
 			return Int(r.Intn(5))
 		}
 	}
-	save := g.NoCalls
-	g.NoCalls = true
 	a, b := bound(), bound()
-	g.NoCalls = save
 	return must(Slice(g.Sc, x, a, b))
 }
 
